@@ -1,3 +1,4 @@
+import Juniper.Proofs.IterGuards
 import Juniper.Proofs.IterReduce
 /-! # `iterator.Equal` (C07) -/
 namespace Juniper.Proofs.IterDen
@@ -45,19 +46,19 @@ theorem equalRound_cons (m : IM σ α) (fuel : Nat) (x : Option α) (s : σ) (r 
     equalRound m fuel x (s :: r) =
       if y = x then ((equalRound m fuel x r).1, s' :: (equalRound m fuel x r).2) else (some false, s' :: r) := by
   rw [equalRound, hd]
-  simp only
+  simp only [ValueFacts.itEqualLenDiff_eq, ValueFacts.itEqualItemDiff_eq]
   by_cases hy : y = x
-  · have := (opt_match y x).mpr hy
-    rw [if_neg this.1, if_neg this.2, if_pos hy]
+  · subst hy
+    cases y <;> simp
   · rw [if_neg hy]
-    by_cases h1 : y.isSome ≠ x.isSome
-    · rw [if_pos h1]
-    · rw [if_neg h1]
-      have h2 : (x.isSome && decide (y ≠ x)) = true := by
-        by_cases h2 : (x.isSome && decide (y ≠ x)) = true
-        · exact h2
-        · exact absurd ((opt_match y x).mp ⟨h1, h2⟩) hy
-      rw [if_pos h2]
+    cases y with
+    | none => cases x <;> simp_all
+    | some a =>
+      cases x with
+      | none => simp
+      | some b =>
+        have hab : ¬ b = a := fun h => hy (by rw [h])
+        simp [hab]
 
 /-- one round of `Equal` over states that yield the lists `ls` -/
 theorem equalRound_spec {m : IM σ α} (x : Option α) (r : List σ) (ls : List (List α))
@@ -91,7 +92,18 @@ theorem equal_succ (m : IM σ α) (fuel rounds : Nat) (s : σ) (r : List σ) :
         match equalRound m fuel x r with
         | (none, r') => (none, s' :: r')
         | (some false, r') => (some false, s' :: r')
-        | (some true, r') => if x.isNone then (some true, s' :: r') else equal m fuel rounds (s' :: r') := rfl
+        | (some true, r') => if x.isNone then (some true, s' :: r') else equal m fuel rounds (s' :: r') := by
+  rw [equal]
+  simp only [equalLoopOk_true, Bool.not_true, Bool.false_eq_true, if_false, ValueFacts.itEqualDone_eq]
+  rcases drive m fuel s with ⟨x, s'⟩
+  cases x with
+  | none => rfl
+  | some x =>
+    simp only
+    rcases equalRound m fuel x r with ⟨b, r'⟩
+    cases b with
+    | none => rfl
+    | some b => cases b <;> cases x <;> simp
 
 /-- **`iterator.Equal(iters...)`** is `true` iff all iterators yield the same list. -/
 theorem equal_den {m : IM σ α} (l0 : List α) (s0 : σ) (r : List σ) (ls : List (List α))
